@@ -23,8 +23,8 @@
  *   allocs: <len> | n<len> (base NULL), k-th alloc callback, cyclically
  * output: <trace> ; <oracle log>
  *   trace tokens (ocaml/drv_c06.ml prints the same, except the upper-case
- *   harness-only tokens W<total> G<total> H Q U K M;
- *   G = that write carried a descriptor):
+ *   harness-only tokens W<total> G<total> H Q U K M B<n>;
+ *   G = that write carried a descriptor, B<n> = n bytes were still readable at this UV_EOF):
  *   P<raw>  A<id>,<suggested>,<base>,<len>  k<len>:<ans>@<off>  r<tok>:<nread>:<buf>:<off>,<len>
  *   s<ret> t<ret> c0  x  f<readable><active><closing>
  *   K = the next k was capped by the script, M = the next P was altered upwards by the script */
@@ -189,6 +189,11 @@ static void on_read(int tok, uv_stream_t* s, ssize_t nread, const uv_buf_t* buf)
     delivered += nread;
   } else {
     printf("r%d:%zd:%s:0,0 ", tok, nread, id);
+    if (nread == UV_EOF && !g_closing) {      /* what is still readable at UV_EOF (harness-only token) */
+      static char peek[65536];
+      ssize_t left = recv(g_fd, peek, sizeof peek, MSG_PEEK | MSG_DONTWAIT);
+      if (left > 0) printf("B%zd ", left);
+    }
   }
   if (id[0] != '-' && id[0] != '?') { free(out.base); out.live = 0; out.base = NULL; }
   {
@@ -270,16 +275,19 @@ static void do_ops(char* ops, int in_cb) {
 static int make_pair(int fds[2]) {
   if (!tcp_mode) return socketpair(AF_UNIX, SOCK_STREAM, 0, fds);
   {
-    struct sockaddr_in a; socklen_t alen = sizeof a; int ls, c, s;
-    ls = socket(AF_INET, SOCK_STREAM, 0);
-    memset(&a, 0, sizeof a); a.sin_family = AF_INET; a.sin_addr.s_addr = htonl(INADDR_LOOPBACK);
-    if (bind(ls, (struct sockaddr*) &a, sizeof a) || listen(ls, 1) ||
-        getsockname(ls, (struct sockaddr*) &a, &alen)) return -1;
+    /* one listening socket per harness process */
+    static int ls = -1; static struct sockaddr_in a;
+    socklen_t alen = sizeof a; int c, s;
+    if (ls < 0) {
+      ls = socket(AF_INET, SOCK_STREAM, 0);
+      memset(&a, 0, sizeof a); a.sin_family = AF_INET; a.sin_addr.s_addr = htonl(INADDR_LOOPBACK);
+      if (bind(ls, (struct sockaddr*) &a, sizeof a) || listen(ls, 1) ||
+          getsockname(ls, (struct sockaddr*) &a, &alen)) { close(ls); ls = -1; return -1; }
+    }
     c = socket(AF_INET, SOCK_STREAM, 0);
-    if (connect(c, (struct sockaddr*) &a, sizeof a)) return -1;
+    if (connect(c, (struct sockaddr*) &a, sizeof a)) { close(c); return -1; }
     s = accept(ls, NULL, NULL);
-    close(ls);
-    if (s < 0) return -1;
+    if (s < 0) { close(c); return -1; }
     { int one = 1; setsockopt(s, IPPROTO_TCP, 1 /* TCP_NODELAY */, &one, sizeof one); }
     fds[0] = c; fds[1] = s;
     return 0;
@@ -327,8 +335,14 @@ static void run_case(char* line) {
   do_ops(sec[1], 0);
 
   if (out.live) printf("A? ");           /* a buffer that never came back */
-  /* tear down quietly */
+  /* tear down quietly; abortive close of whatever is still open, so that tens of
+   * thousands of loopback connections do not pile up in TIME_WAIT */
   g_quiet = 1;
+  if (tcp_mode) {
+    struct linger lg; lg.l_onoff = 1; lg.l_linger = 0;
+    if (!g_closing) setsockopt(g_fd, SOL_SOCKET, SO_LINGER, &lg, sizeof lg);
+    if (g_peer >= 0) setsockopt(g_peer, SOL_SOCKET, SO_LINGER, &lg, sizeof lg);
+  }
   if (!g_closing) { g_closing = 1; uv_close(&h.handle, close_cb); }
   uv_close((uv_handle_t*) &keepalive, NULL);
   for (i = 0; i < 50 && uv_run(&loop, UV_RUN_NOWAIT); i++) ;
